@@ -98,7 +98,7 @@ func c56(c *Ctx) {
 		c.Expect(okT, timerSel, f, "timer-until-next-resolution-time", "the timer does not wait until the computed next resolution time")
 		// index: +1 on failure, 1 on success
 		okIdx := false
-		for _, in := range instrsWhere(f, func(in ssa.Instruction) bool { p, ok := in.(*ssa.Phi); return ok && p.Comment == "backoffIndex" }) {
+		for _, in := range instrsWhere(f, func(in ssa.Instruction) bool { _, ok := in.(*ssa.Phi); return ok }) {
 			inc, one1 := false, false
 			for _, lf := range phiLeaves(in.(*ssa.Phi)) {
 				if ConstInt(1)(lf.Val) {
@@ -140,7 +140,7 @@ func c56(c *Ctx) {
 			c.MustFact(in, "localhost-only-for-empty-host", Cmp(AnyV, token.EQL, ConstStr("")))
 		}
 		if !okLocal {
-			for _, in := range instrsWhere(f, func(in ssa.Instruction) bool { p, ok := in.(*ssa.Phi); return ok && p.Comment == "host" }) {
+			for _, in := range instrsWhere(f, func(in ssa.Instruction) bool { _, ok := in.(*ssa.Phi); return ok }) {
 				for _, lf := range phiLeaves(in.(*ssa.Phi)) {
 					if ConstStr("localhost")(lf.Val) {
 						okLocal = true
